@@ -140,6 +140,7 @@ func (a *asm) assemble() []byte {
 
 // EvmWorld resolves symbolic names of a call-tree scenario.
 type EvmWorld struct {
+	CapCalls bool // bound the gas of nested call frames (random call trees)
 	N       *Node
 	Roles   map[string]Key // S, T, W, ...
 	Created common.Address // address of the contract created by a top-level "create" (N0)
@@ -233,6 +234,12 @@ func (w *EvmWorld) pcCalldata(o Op, self common.Address) (common.Address, []byte
 // compileBody compiles the ops executed by contract `self` (main entry: empty calldata; alt entry:
 // any calldata); nested call nodes are compiled recursively into `out`.
 func (w *EvmWorld) compileBody(self common.Address, body, alt []Op, out map[common.Address][]byte) error {
+	return w.compileBodyD(self, body, alt, out, 0)
+}
+
+// compileBodyD: depth > 0 or w.CapCalls: nested call frames get a bounded amount of gas (10M below the top
+// contract, 4M below that), so that a frame that ends in INVALID does not starve the rest of the tree.
+func (w *EvmWorld) compileBodyD(self common.Address, body, alt []Op, out map[common.Address][]byte, depth int) error {
 	a := newAsm()
 	rec := w.recorderAddr()
 	emitCall := func(o Op, target common.Address, data []byte, argLen int, value *big.Int, gasCap int) {
@@ -296,18 +303,29 @@ func (w *EvmWorld) compileBody(self common.Address, body, alt []Op, out map[comm
 				if err != nil {
 					return err
 				}
-				emitCall(o, target, data, 0, value, 3_000_000)
+				pcap := 3_000_000
+				if w.CapCalls {
+					pcap = 600_000 // consistent with the caps of nested frames (a failing precompile burns all of it)
+				}
+				emitCall(o, target, data, 0, value, pcap)
 			case "call":
 				var target common.Address
 				if len(o.Body) > 0 {
 					target = w.contractAddr(o.ID)
-					if err := w.compileBody(target, o.Body, o.Alt, out); err != nil {
+					if err := w.compileBodyD(target, o.Body, o.Alt, out, depth+1); err != nil {
 						return err
 					}
 				} else {
 					target = w.addrOf(o.To, self)
 				}
-				emitCall(o, target, nil, 0, value, 0)
+				gcap := 0
+				if w.CapCalls && len(o.Body) > 0 {
+					gcap = 10_000_000
+					if depth > 0 {
+						gcap = 4_000_000
+					}
+				}
+				emitCall(o, target, nil, 0, value, gcap)
 			case "recall":
 				// re-enter an existing contract of the tree through its alt entry point
 				emitCall(o, w.addrOf(o.To, self), nil, 1, value, 0)
